@@ -34,6 +34,8 @@ def run(tool, argv, stdin=None):
     except SystemExit as e:
         code = e.code
     except BaseException as e:   # noqa
+        if type(e).__name__ in ('_CaseCpuTimeout', '_ShrinkTimeout', 'KeyboardInterrupt'):
+            raise       # harness control flow (vlib.runner), not a crash of the tool
         exc = e
     return Result(out.getvalue(), err.getvalue(), code, exc)
 
